@@ -46,6 +46,32 @@ Theorem C20_progname_roundtrip_partial :
 Proof. exact progname_roundtrip_partial. Qed.
 Print Assumptions C20_progname_roundtrip_partial.
 
+(* The refinement, exact: for every name without a double quote (backslashes allowed, as in a Windows path)
+   the program-name rule gives back the name followed by as many extra backslashes as the name ends in when
+   it had to be quoted -- so it round-trips iff it needs no quoting or does not end in a backslash.
+   (tb p 0 = number of trailing backslashes of p.)  The witness below is a quoted name that ends in one:
+   a directory-like name with a blank, which no CreateProcess call can run; the property is about the
+   argument rules, under which C20_cmdline_roundtrip holds for every vector. *)
+Theorem C20_progname_exact :
+  forall (p rest : str), after_arg rest ->
+    forallb (fun c => negb (c =? 34)) p = true ->
+    parse_progname (append_quoted p ++ rest) = (p ++ (if needs_quote p then repeat 92 (tb p 0) else []), rest).
+Proof. exact progname_exact. Qed.
+Print Assumptions C20_progname_exact.
+
+Theorem C20_progname_roundtrip_iff :
+  forall (p rest : str), after_arg rest ->
+    forallb (fun c => negb (c =? 34)) p = true ->
+    (parse_progname (append_quoted p ++ rest) = (p, rest) <-> needs_quote p = false \/ tb p 0 = 0%nat).
+Proof. exact progname_roundtrip_iff. Qed.
+Print Assumptions C20_progname_roundtrip_iff.
+
+Example C20_progname_witness :
+  parse_progname (append_quoted [67;58;92;97;32;98;92;120] ++ [32;121]) = ([67;58;92;97;32;98;92;120], [32;121])   (* C:\a b\x *)
+  /\ parse_progname (append_quoted [97;32;92] ++ []) = ([97;32;92;92], [])                                          (* `a \` *)
+  /\ parse_args 1 (append_quoted [97;32;92]) = [[97;32;92]].
+Proof. vm_compute. repeat split; reflexivity. Qed.
+
 (* Non-vacuity and validation of the reference parser on Microsoft's documented example table
    ("Parsing C command-line arguments"): each line is the text after the program name. *)
 Example C20_ms_doc_table :
